@@ -14,6 +14,8 @@ CONSTANTS
  DevNoAclOn <- NoApis
  DevGateAfterAppend = "none"
  DevLeaseCheckSkipped = FALSE
+ DevFetchAclOnRequestName = FALSE
+ DevStaleOwnedOnSessionReplace = FALSE
 INIT Init
 NEXT Next
 INVARIANTS EmitSched C19_AckOnlyIfHeld C19_NoWriteUnlessHeld C19_RefusalCode C19_NotLeaderForOtherOwner
